@@ -3,6 +3,7 @@ import ParryModel.C05.Model
 import ParryModel.C05.Lemmas
 import ParryModel.C05.Tri2
 set_option linter.style.haveILetI false
+set_option linter.unusedSimpArgs false
 /-!
 # C05 property theorems: point projection, for every linearly ordered field
 
@@ -15,10 +16,6 @@ namespace C05
 open Model
 
 variable {K : Type} [Field K] [LinearOrder K] [IsStrictOrderedRing K] (sq : K → K)
-
-/-- squared distance (the specification's metric) -/
-def dsq3 (p q : V3 K) : K := (p.x - q.x) * (p.x - q.x) + (p.y - q.y) * (p.y - q.y) + (p.z - q.z) * (p.z - q.z)
-def dsq2 (p q : V2 K) : K := (p.x - q.x) * (p.x - q.x) + (p.y - q.y) * (p.y - q.y)
 
 /-- `relative_eq!` as a predicate: equal, or absolutely / relatively within `ε = 2⁻⁵²` -/
 def RelClose (a b : K) : Prop :=
@@ -826,5 +823,455 @@ theorem tri2_contains_iff (s : Triangle2 K) (p : V2 K) (h : Tri2Ok s) :
 example : Tri2Ok (⟨⟨0, 0⟩, ⟨4, 0⟩, ⟨0, 3⟩⟩ : Triangle2 ℚ) ∧ (⟨⟨0, 0⟩, ⟨4, 0⟩, ⟨0, 3⟩⟩ : Triangle2 ℚ).Mem ⟨1, 1⟩ := by
   refine ⟨by simp only [Tri2Ok]; norm_num, ⟨1/4, 1/3, by norm_num, by norm_num, by norm_num, ?_⟩⟩
   simp only [V2.add, V2.sub, V2.smul]; norm_num
+
+/-! ## Default methods of `PointQuery` and posed forms (generic in the shape's `project_local_point`) -/
+
+/-- **`distance_to_local_point` (default)**: magnitude `|p - proj|`; negative only if `solid = false` and the projection
+reports `is_inside`; and then it *is* negative unless `proj = p`.  Together with the `*_inside_iff` theorems this is
+"the sign of the distance agrees with membership". -/
+theorem default_distance_spec3 (hs : LawfulSqrt sq) (project : V3 K → Bool → PP3 K) (p : V3 K) (solid : Bool) :
+    letI := fieldNum K sq
+    defaultDistance3 project p solid * defaultDistance3 project p solid = dsq3 p (project p solid).pt ∧
+    (defaultDistance3 project p solid < 0 → solid = false ∧ (project p solid).inside = true) ∧
+    (solid = false → (project p solid).inside = true → (project p solid).pt ≠ p → defaultDistance3 project p solid < 0) := by
+  letI := fieldNum K sq
+  have hnn : 0 ≤ ((project p solid).pt.sub p).normSq := by
+    simp only [V3.normSq, V3.dot]
+    nlinarith [mul_self_nonneg ((project p solid).pt.sub p).x, mul_self_nonneg ((project p solid).pt.sub p).y,
+      mul_self_nonneg ((project p solid).pt.sub p).z]
+  have h2 := hs.sq_mul _ hnn
+  have h0 := hs.nonneg _ hnn
+  have hd : ((project p solid).pt.sub p).normSq = dsq3 p (project p solid).pt := by
+    simp only [V3.normSq, V3.dot, V3.sub, dsq3]; ring
+  simp only [defaultDistance3, V3.norm, fieldNum_sqrt]
+  refine ⟨?_, ?_, ?_⟩
+  · split_ifs <;> rw [← hd] <;> linear_combination h2
+  · split_ifs with c
+    · intro h; exact absurd h (not_lt.mpr h0)
+    · intro _
+      simp only [Bool.or_eq_true, Bool.not_eq_true', not_or, Bool.not_eq_false] at c
+      exact ⟨by simpa using c.1, c.2⟩
+  · intro h1 h2' h3
+    subst h1
+    simp only [h2', Bool.false_or, Bool.not_true, Bool.false_eq_true, if_false]
+    have hpos : 0 < sq ((project p false).pt.sub p).normSq := by
+      rcases lt_or_eq_of_le h0 with h | h
+      · exact h
+      · exfalso
+        apply h3
+        rw [← h] at h2
+        have hz : ((project p false).pt.sub p).normSq = 0 := by linarith
+        simp only [V3.normSq, V3.dot, V3.sub] at hz
+        obtain ⟨ex, ey, ez⟩ := sumsq3_eq_zero (le_of_eq hz)
+        exact v3_ext (by linarith) (by linarith) (by linarith)
+    linarith
+
+/-- **`contains_local_point` (default)** is the inside flag of the solid projection -/
+theorem default_contains_spec3 (project : V3 K → Bool → PP3 K) (p : V3 K) :
+    letI := fieldNum K sq
+    defaultContains3 project p = (project p true).inside := rfl
+
+/-- **`project_local_point_with_max_dist` (default)**: `None` exactly when the projection is farther than `max_dist`. -/
+theorem default_maxdist_spec3 (hs : LawfulSqrt sq) (project : V3 K → Bool → PP3 K) (p : V3 K) (solid : Bool) (m : K) :
+    letI := fieldNum K sq
+    0 ≤ m →
+    ((defaultMaxDist3 project p solid m = none ↔ m * m < dsq3 p (project p solid).pt) ∧
+     (∀ r, defaultMaxDist3 project p solid m = some r → r = project p solid)) := by
+  letI := fieldNum K sq
+  intro hm
+  have hnn : 0 ≤ (p.sub (project p solid).pt).normSq := by
+    simp only [V3.normSq, V3.dot]
+    nlinarith [mul_self_nonneg (p.sub (project p solid).pt).x, mul_self_nonneg (p.sub (project p solid).pt).y,
+      mul_self_nonneg (p.sub (project p solid).pt).z]
+  have h2 := hs.sq_mul _ hnn
+  have h0 := hs.nonneg _ hnn
+  have hd : (p.sub (project p solid).pt).normSq = dsq3 p (project p solid).pt := by
+    simp only [V3.normSq, V3.dot, V3.sub, dsq3]
+  simp only [defaultMaxDist3]
+  split_ifs with c <;> simp only [V3.norm, fieldNum_sqrt] at c
+  · refine ⟨⟨fun _ => ?_, fun _ => rfl⟩, fun r h => by simp at h⟩
+    rw [← hd]; nlinarith
+  · refine ⟨⟨fun h => by simp at h, fun h => ?_⟩, fun r h => by simpa using h.symm⟩
+    exfalso; rw [← hd] at h; push Not at c; nlinarith
+
+/-- a unit quaternion -/
+def Iso3.Unit (m : Iso3 K) : Prop := m.qi * m.qi + m.qj * m.qj + m.qk * m.qk + m.qw * m.qw = 1
+def Iso2.Unit (m : Iso2 K) : Prop := m.re * m.re + m.im * m.im = 1
+
+theorem iso3_invAct_act (m : Iso3 K) (x : V3 K) (hm : Iso3.Unit m) :
+    letI := fieldNum K sq
+    m.invAct (m.act x) = x := by
+  letI := fieldNum K sq
+  simp only [Iso3.invAct, Iso3.act]
+  have : ((m.rot x).add m.t).sub m.t = m.rot x := by
+    apply v3_ext <;> simp [V3.add, V3.sub]
+  rw [this]; exact iso3_invRot_rot sq m x hm
+
+theorem iso3_act_invAct (m : Iso3 K) (x : V3 K) (hm : Iso3.Unit m) :
+    letI := fieldNum K sq
+    m.act (m.invAct x) = x := by
+  letI := fieldNum K sq
+  simp only [Iso3.invAct, Iso3.act]
+  rw [iso3_rot_invRot sq m _ hm]
+  apply v3_ext <;> simp [V3.add, V3.sub]
+
+/-- an isometry preserves squared distances -/
+theorem iso3_act_dsq (m : Iso3 K) (x y : V3 K) (hm : Iso3.Unit m) :
+    letI := fieldNum K sq
+    dsq3 (m.act x) (m.act y) = dsq3 x y := by
+  letI := fieldNum K sq
+  rw [← iso3_rot_dsq sq m x y hm]
+  simp only [Iso3.act, dsq3, V3.add]; ring
+
+/-- **posed = local ∘ inverse transform** (definitional) -/
+theorem posed_project_def3 (project : V3 K → Bool → PP3 K) (m : Iso3 K) (pt : V3 K) (solid : Bool) :
+    letI := fieldNum K sq
+    posedProject3 project m pt solid = ⟨(project (m.invAct pt) solid).inside, m.act (project (m.invAct pt) solid).pt⟩ := rfl
+theorem posed_distance_def3 (distance : V3 K → Bool → K) (m : Iso3 K) (pt : V3 K) (solid : Bool) :
+    letI := fieldNum K sq
+    posedDistance3 distance m pt solid = distance (m.invAct pt) solid := rfl
+theorem posed_contains_def3 (contains : V3 K → Bool) (m : Iso3 K) (pt : V3 K) :
+    letI := fieldNum K sq
+    posedContains3 contains m pt = contains (m.invAct pt) := rfl
+
+/-- **posed projection transfers the local guarantees**: if, at the local point `m⁻¹ pt`, the local projection is a member of
+`S` that is at least as close as every member of `T`, then `project_point` returns a member of the world-space shape
+`m·S = {x | S (m⁻¹ x)}` that is at least as close to `pt` as every point of `m·T`. -/
+theorem posed_project_optimal3 (project : V3 K → Bool → PP3 K) (S T : V3 K → Prop) (m : Iso3 K) (pt : V3 K) (solid : Bool)
+    (hm : Iso3.Unit m) :
+    letI := fieldNum K sq
+    S (project (m.invAct pt) solid).pt →
+    (∀ q, T q → dsq3 (m.invAct pt) (project (m.invAct pt) solid).pt ≤ dsq3 (m.invAct pt) q) →
+    S (m.invAct (posedProject3 project m pt solid).pt) ∧
+    ∀ y, T (m.invAct y) → dsq3 pt (posedProject3 project m pt solid).pt ≤ dsq3 pt y := by
+  letI := fieldNum K sq
+  intro h1 h2
+  simp only [posedProject3, PP3.transformBy]
+  refine ⟨by rw [iso3_invAct_act sq m _ hm]; exact h1, fun y hy => ?_⟩
+  have e1 := iso3_act_dsq sq m (m.invAct pt) (project (m.invAct pt) solid).pt hm
+  have e2 := iso3_act_dsq sq m (m.invAct pt) (m.invAct y) hm
+  rw [iso3_act_invAct sq m pt hm] at e1 e2
+  rw [iso3_act_invAct sq m y hm] at e2
+  rw [e1, e2]
+  exact h2 _ hy
+
+example : Iso3.Unit (⟨1/2, 1/2, 1/2, 1/2, ⟨1, 2, 3⟩⟩ : Iso3 ℚ) := by simp only [Iso3.Unit]; norm_num
+
+/-! ## Capsule (segment + radius) -/
+
+/-- `orthonormal_basis()[0]` of a unit vector is a unit vector orthogonal to it (Pixar's branchless formula) -/
+theorem orthoBasis0_spec (v : V3 K) :
+    letI := fieldNum K sq
+    v.normSq = 1 → (orthoBasis0 v).normSq = 1 ∧ (orthoBasis0 v).dot v = 0 := by
+  letI := fieldNum K sq
+  intro hv
+  simp only [orthoBasis0, V3.normSq, V3.dot] at *
+  have e2 : v.x * v.x + v.y * v.y = 1 - v.z * v.z := by linear_combination hv
+  split_ifs with hz
+  · have hne : (-1 : K) + v.z ≠ 0 := by linarith
+    have ha := div_mul_cancel₀ (-1 : K) hne
+    generalize (-1 : K) / (-1 + v.z) = a at *
+    have e : a * v.z = a - 1 := by linear_combination ha
+    have e3 : a * a * (v.x * v.x + v.y * v.y) - 2 * a + 1 = 0 := by
+      rw [e2]
+      have : a * a * (1 - v.z * v.z) = a * a - (a * v.z) * (a * v.z) := by ring
+      rw [this, e]; ring
+    have e4 : a * (v.x * v.x + v.y * v.y) = 1 + v.z := by
+      rw [e2]
+      have : a * (1 - v.z * v.z) = (a - a * v.z) * (1 + v.z) := by ring
+      rw [this, e]; ring
+    constructor
+    · linear_combination (v.x * v.x) * e3
+    · linear_combination (-v.x) * e4
+  · have hne : (1 : K) + v.z ≠ 0 := by push Not at hz; linarith
+    have ha := div_mul_cancel₀ (-1 : K) hne
+    generalize (-1 : K) / (1 + v.z) = a at *
+    have e : a * v.z = -1 - a := by linear_combination ha
+    have e3 : a * a * (v.x * v.x + v.y * v.y) + 2 * a + 1 = 0 := by
+      rw [e2]
+      have : a * a * (1 - v.z * v.z) = a * a - (a * v.z) * (a * v.z) := by ring
+      rw [this, e]; ring
+    have e4 : a * (v.x * v.x + v.y * v.y) = -1 + v.z := by
+      rw [e2]
+      have : a * (1 - v.z * v.z) = (a + a * v.z) * (1 - v.z) := by ring
+      rw [this, e]; ring
+    constructor
+    · linear_combination (v.x * v.x) * e3
+    · linear_combination (v.x) * e4
+
+/-- positivity of `ε = 2⁻⁵²` -/
+theorem eps_pos : (0 : K) < ((mkRat 1 4503599627370496 : ℚ) : K) := by
+  have : (0 : ℚ) < mkRat 1 4503599627370496 := by norm_num
+  exact_mod_cast this
+
+/-- squared distance from `p` to the projection on the capsule's axis -/
+def capAxisSq (s : Capsule3 K) (p : V3 K) : K :=
+  letI := fieldNum K sq
+  (p.sub ((⟨s.a, s.b⟩ : Segment3 K).projectLoc p).1.pt).normSq
+
+/-- membership in the capsule ⇔ the axis projection is within `r` -/
+theorem cap3_mem_iff (s : Capsule3 K) (p : V3 K) :
+    letI := fieldNum K sq
+    s.Mem p ↔ capAxisSq sq s p ≤ s.r * s.r := by
+  letI := fieldNum K sq
+  constructor
+  · rintro ⟨q, hq, hle⟩
+    have h := seg3_project_optimal sq ⟨s.a, s.b⟩ p q hq
+    simp only [capAxisSq, V3.normSq, V3.dot, V3.sub, dsq3] at *
+    linarith
+  · intro h
+    exact ⟨_, seg3_project_mem sq ⟨s.a, s.b⟩ p, h⟩
+
+/-- the result shapes of `Capsule::project_local_point`: the query point itself (inside, solid), or the axis projection
+`P` pushed by `r` along a unit vector `d` (which is the direction `P → p` whenever that is not degenerate). -/
+private theorem cap3_cases (hs : LawfulSqrt sq) (s : Capsule3 K) (p : V3 K) (solid : Bool) :
+    letI := fieldNum K sq
+    ((mkRat 1 4503599627370496 : ℚ) : K) ≤ s.r →
+    ((s.project p solid).inside = true ↔ capAxisSq sq s p ≤ s.r * s.r) ∧
+    (((s.project p solid).pt = p ∧ capAxisSq sq s p ≤ s.r * s.r ∧ solid = true) ∨
+     (∃ d : V3 K, d.normSq = 1 ∧ (s.project p solid).pt = ((⟨s.a, s.b⟩ : Segment3 K).projectLoc p).1.pt.add (d.smul s.r) ∧
+        (((mkRat 1 4503599627370496 : ℚ) : K) * ((mkRat 1 4503599627370496 : ℚ) : K) < capAxisSq sq s p →
+          (p.sub ((⟨s.a, s.b⟩ : Segment3 K).projectLoc p).1.pt) = d.smul (sq (capAxisSq sq s p))) ∧
+        (capAxisSq sq s p ≤ s.r * s.r → solid = false))) := by
+  letI := fieldNum K sq
+  intro hr
+  have he := eps_pos (K := K)
+  have hnn : 0 ≤ capAxisSq sq s p := by
+    simp only [capAxisSq, V3.normSq, V3.dot]
+    nlinarith [mul_self_nonneg (p.sub ((⟨s.a, s.b⟩ : Segment3 K).projectLoc p).1.pt).x,
+      mul_self_nonneg (p.sub ((⟨s.a, s.b⟩ : Segment3 K).projectLoc p).1.pt).y,
+      mul_self_nonneg (p.sub ((⟨s.a, s.b⟩ : Segment3 K).projectLoc p).1.pt).z]
+  have h2 := hs.sq_mul _ hnn
+  have h0 := hs.nonneg _ hnn
+  have hr0 : 0 ≤ s.r := le_trans he.le hr
+  have hee : ((mkRat 1 4503599627370496 : ℚ) : K) * ((mkRat 1 4503599627370496 : ℚ) : K) ≤ s.r * s.r :=
+    mul_self_le_mul_self he.le hr
+  have hle : sq (capAxisSq sq s p) ≤ s.r ↔ capAxisSq sq s p ≤ s.r * s.r := by
+    constructor
+    · intro h; rw [← h2]; exact mul_self_le_mul_self h0 h
+    · intro h; rw [← h2] at h; exact le_of_mul_self_le hr0 h
+  simp only [capAxisSq] at *
+  generalize hres : s.project p solid = res
+  dsimp only [Capsule3.project] at hres
+  split_ifs at hres with c1 c2 c3 c4 <;> subst hres <;>
+    simp only [Bool.and_eq_true, decide_eq_true_eq, eps, fieldNum_lit, fieldNum_sqrt] at * <;>
+    simp only [Segment3.project] at *
+  · -- not on the axis, solid and inside
+    exact ⟨⟨fun _ => hle.mp c2.2, fun _ => trivial⟩, Or.inl ⟨trivial, hle.mp c2.2, c2.1⟩⟩
+  · -- not on the axis: push along the direction
+    refine ⟨by rw [hle], Or.inr ⟨_, ?_, rfl, ?_, ?_⟩⟩
+    · have hpos : 0 < (p.sub ((⟨s.a, s.b⟩ : Segment3 K).projectLoc p).1.pt).normSq := lt_trans (mul_pos he he) c1
+      have hne : sq (p.sub ((⟨s.a, s.b⟩ : Segment3 K).projectLoc p).1.pt).normSq ≠ 0 := by
+        intro h; rw [h] at h2; linarith
+      generalize sq (p.sub ((⟨s.a, s.b⟩ : Segment3 K).projectLoc p).1.pt).normSq = d at *
+      generalize (p.sub ((⟨s.a, s.b⟩ : Segment3 K).projectLoc p).1.pt) = w at *
+      simp only [V3.normSq, V3.dot, V3.sdiv] at *
+      field_simp
+      linarith
+    · intro _
+      have hne : sq (p.sub ((⟨s.a, s.b⟩ : Segment3 K).projectLoc p).1.pt).normSq ≠ 0 := by
+        intro h; rw [h] at h2; have := mul_pos he he; linarith
+      apply v3_ext <;> simp only [V3.smul, V3.sdiv] <;> field_simp
+    · intro hN
+      by_contra hsol
+      exact c2 ⟨by simpa using hsol, hle.mpr hN⟩
+  · -- on the axis, solid
+    push Not at c1
+    exact ⟨⟨fun _ => le_trans c1 hee, fun _ => trivial⟩, Or.inl ⟨trivial, le_trans c1 hee, c3⟩⟩
+  · -- on the axis, hollow: orthogonal direction
+    push Not at c1
+    refine ⟨⟨fun _ => le_trans c1 hee, fun _ => trivial⟩, Or.inr ⟨_, ?_, rfl, fun h => absurd h (not_lt.mpr c1), fun _ => by simpa using c3⟩⟩
+    apply (orthoBasis0_spec sq _ _).1
+    have hpos : 0 < (s.b.sub s.a).normSq := lt_trans (mul_pos he he) c4
+    have h2' := hs.sq_mul _ hpos.le
+    have hne : sq (s.b.sub s.a).normSq ≠ 0 := by
+      intro h; rw [h] at h2'; linarith
+    generalize sq (s.b.sub s.a).normSq = d at *
+    generalize (s.b.sub s.a) = w at *
+    simp only [V3.normSq, V3.dot, V3.sdiv] at *
+    field_simp
+    linarith
+  · -- degenerate segment, hollow
+    push Not at c1
+    refine ⟨⟨fun _ => le_trans c1 hee, fun _ => trivial⟩, Or.inr ⟨⟨0, 1, 0⟩, by simp [V3.normSq, V3.dot], ?_, fun h => absurd h (not_lt.mpr c1), fun _ => by simpa using c3⟩⟩
+    simp [V3.smul]
+
+/-- domain: radius at least `ε = 2⁻⁵²` (the property's domain has `r ≥ 10⁻²`) -/
+def CapOk3 (s : Capsule3 K) : Prop := ((mkRat 1 4503599627370496 : ℚ) : K) ≤ s.r
+
+/-- **inside flag** ⇔ membership in the capsule -/
+theorem cap3_inside_iff (hs : LawfulSqrt sq) (s : Capsule3 K) (p : V3 K) (solid : Bool) (h : CapOk3 s) :
+    letI := fieldNum K sq
+    (s.project p solid).inside = true ↔ s.Mem p := by
+  rw [cap3_mem_iff]; exact (cap3_cases sq hs s p solid h).1
+
+/-- `contains_local_point` (default) ⇔ membership -/
+theorem cap3_contains_iff (hs : LawfulSqrt sq) (s : Capsule3 K) (p : V3 K) (h : CapOk3 s) :
+    letI := fieldNum K sq
+    defaultContains3 (s.project) p = true ↔ s.Mem p :=
+  cap3_inside_iff sq hs s p true h
+
+/-- **membership**: the projection is a point of the capsule (all branches, including the degenerate on-axis ones) -/
+theorem cap3_project_mem (hs : LawfulSqrt sq) (s : Capsule3 K) (p : V3 K) (solid : Bool) (h : CapOk3 s) :
+    letI := fieldNum K sq
+    s.Mem (s.project p solid).pt := by
+  letI := fieldNum K sq
+  rcases (cap3_cases sq hs s p solid h).2 with ⟨e, hN, _⟩ | ⟨d, hd, e, _, _⟩
+  · rw [e]; exact (cap3_mem_iff sq s p).mpr hN
+  · rw [e]
+    refine ⟨_, seg3_project_mem sq ⟨s.a, s.b⟩ p, ?_⟩
+    generalize ((⟨s.a, s.b⟩ : Segment3 K).projectLoc p).1.pt = P
+    simp only [V3.normSq, V3.dot, V3.sub, V3.add, V3.smul] at *
+    apply le_of_eq
+    linear_combination (s.r * s.r) * hd
+
+/-- **optimality**: for `solid = true`, or for a point outside, no point of the capsule is closer than the projection. -/
+theorem cap3_project_optimal (hs : LawfulSqrt sq) (s : Capsule3 K) (p y : V3 K) (solid : Bool) (h : CapOk3 s) :
+    letI := fieldNum K sq
+    s.Mem y → (solid = true ∨ ¬ s.Mem p) → dsq3 p (s.project p solid).pt ≤ dsq3 p y := by
+  letI := fieldNum K sq
+  intro hy hc
+  rcases (cap3_cases sq hs s p solid h).2 with ⟨e, _, _⟩ | ⟨d, hd, e, hdir, hsol⟩
+  · rw [e]; simp only [dsq3]
+    nlinarith [mul_self_nonneg (p.x - y.x), mul_self_nonneg (p.y - y.y), mul_self_nonneg (p.z - y.z)]
+  · have hnm : ¬ s.Mem p := by
+      rcases hc with hc | hc
+      · intro hm
+        have := hsol ((cap3_mem_iff sq s p).mp hm)
+        rw [hc] at this; exact absurd this (by simp)
+      · exact hc
+    rw [cap3_mem_iff] at hnm
+    push Not at hnm
+    have he := eps_pos (K := K)
+    have hee : ((mkRat 1 4503599627370496 : ℚ) : K) * ((mkRat 1 4503599627370496 : ℚ) : K) ≤ s.r * s.r :=
+      mul_self_le_mul_self he.le h
+    have hr0 : 0 ≤ s.r := le_trans he.le h
+    have hdir' := hdir (lt_of_le_of_lt hee hnm)
+    have hnn : 0 ≤ capAxisSq sq s p := le_trans (mul_self_nonneg _) hnm.le
+    have h2 := hs.sq_mul _ hnn
+    have h0 := hs.nonneg _ hnn
+    have hDr : s.r < sq (capAxisSq sq s p) := by
+      by_contra hcon; push Not at hcon
+      have := mul_self_le_mul_self h0 hcon
+      linarith
+    obtain ⟨q', hq', hyq⟩ := hy
+    have hvar := seg3_project_variational sq ⟨s.a, s.b⟩ p q' hq'
+    rw [e]
+    apply opt_of_var3
+    generalize sq (capAxisSq sq s p) = D at *
+    generalize ((⟨s.a, s.b⟩ : Segment3 K).projectLoc p).1.pt = P at *
+    have hpx : p.x = P.x + d.x * D := by have := congrArg V3.x hdir'; simp only [V3.sub, V3.smul] at this; linarith
+    have hpy : p.y = P.y + d.y * D := by have := congrArg V3.y hdir'; simp only [V3.sub, V3.smul] at this; linarith
+    have hpz : p.z = P.z + d.z * D := by have := congrArg V3.z hdir'; simp only [V3.sub, V3.smul] at this; linarith
+    have hda := dot_le3 d.x d.y d.z (y.x - q'.x) (y.y - q'.y) (y.z - q'.z) 1 s.r
+      (by simpa [V3.normSq, V3.dot] using le_of_eq hd) (by simpa [V3.normSq, V3.dot, V3.sub] using hyq) zero_le_one hr0
+    have hdw : d.x * (q'.x - P.x) + d.y * (q'.y - P.y) + d.z * (q'.z - P.z) ≤ 0 := by
+      simp only [V3.dot, V3.sub] at hvar
+      rw [hpx, hpy, hpz] at hvar
+      have hDpos : 0 < D := lt_of_le_of_lt hr0 hDr
+      by_contra hcon; push Not at hcon
+      have := mul_pos hcon hDpos
+      nlinarith
+    simp only [V3.add, V3.smul, V3.normSq, V3.dot] at hd ⊢
+    rw [hpx, hpy, hpz]
+    have e1 : (P.x + d.x * D - (P.x + d.x * s.r)) * (y.x - (P.x + d.x * s.r)) + (P.y + d.y * D - (P.y + d.y * s.r)) * (y.y - (P.y + d.y * s.r))
+        + (P.z + d.z * D - (P.z + d.z * s.r)) * (y.z - (P.z + d.z * s.r))
+        = (D - s.r) * ((d.x * (y.x - q'.x) + d.y * (y.y - q'.y) + d.z * (y.z - q'.z))
+            + (d.x * (q'.x - P.x) + d.y * (q'.y - P.y) + d.z * (q'.z - P.z)) - s.r) := by
+      linear_combination (-(D - s.r) * s.r) * hd
+    rw [e1]
+    apply mul_nonpos_of_nonneg_of_nonpos (by linarith)
+    linarith
+
+example : CapOk3 (⟨⟨0, 0, 0⟩, ⟨1, 0, 0⟩, 1/2⟩ : Capsule3 ℚ) := by simp only [CapOk3]; norm_num
+
+/-- **boundary** (off the axis): with `solid = false`, or for a point outside, the projection is at distance exactly `r` from
+the axis point `P` and at distance `≥ r` from every point of the axis — i.e. on the capsule's surface. -/
+theorem cap3_project_on_boundary (hs : LawfulSqrt sq) (s : Capsule3 K) (p : V3 K) (solid : Bool) (h : CapOk3 s) :
+    letI := fieldNum K sq
+    (solid = false ∨ ¬ s.Mem p) →
+    ((mkRat 1 4503599627370496 : ℚ) : K) * ((mkRat 1 4503599627370496 : ℚ) : K) < capAxisSq sq s p →
+    ∀ q, (⟨s.a, s.b⟩ : Segment3 K).Mem q → s.r * s.r ≤ dsq3 (s.project p solid).pt q := by
+  letI := fieldNum K sq
+  intro hc hN q hq
+  have he := eps_pos (K := K)
+  have hr0 : 0 ≤ s.r := le_trans he.le h
+  have hnn : 0 ≤ capAxisSq sq s p := le_trans (mul_self_nonneg _) hN.le
+  have h2 := hs.sq_mul _ hnn
+  have h0 := hs.nonneg _ hnn
+  have hDpos : 0 < sq (capAxisSq sq s p) := by
+    rcases lt_or_eq_of_le h0 with h' | h'
+    · exact h'
+    · rw [← h'] at h2; have := mul_pos he he; linarith
+  rcases (cap3_cases sq hs s p solid h).2 with ⟨e, hle, hsol⟩ | ⟨d, hd, e, hdir, _⟩
+  · exfalso
+    rcases hc with hc | hc
+    · rw [hc] at hsol; exact absurd hsol (by simp)
+    · exact hc ((cap3_mem_iff sq s p).mpr hle)
+  · have hdir' := hdir hN
+    have hvar := seg3_project_variational sq ⟨s.a, s.b⟩ p q hq
+    rw [e]
+    generalize sq (capAxisSq sq s p) = D at *
+    generalize ((⟨s.a, s.b⟩ : Segment3 K).projectLoc p).1.pt = P at *
+    have hpx : p.x = P.x + d.x * D := by have := congrArg V3.x hdir'; simp only [V3.sub, V3.smul] at this; linarith
+    have hpy : p.y = P.y + d.y * D := by have := congrArg V3.y hdir'; simp only [V3.sub, V3.smul] at this; linarith
+    have hpz : p.z = P.z + d.z * D := by have := congrArg V3.z hdir'; simp only [V3.sub, V3.smul] at this; linarith
+    have hdw : d.x * (q.x - P.x) + d.y * (q.y - P.y) + d.z * (q.z - P.z) ≤ 0 := by
+      simp only [V3.dot, V3.sub] at hvar
+      rw [hpx, hpy, hpz] at hvar
+      by_contra hcon; push Not at hcon
+      have := mul_pos hcon hDpos
+      nlinarith
+    simp only [V3.add, V3.smul, V3.normSq, V3.dot, dsq3] at hd ⊢
+    nlinarith [mul_self_nonneg (q.x - P.x), mul_self_nonneg (q.y - P.y), mul_self_nonneg (q.z - P.z), mul_nonneg hr0 (neg_nonneg.2 hdw)]
+
+/-- **optimality w.r.t. the surface** (`solid = false`, interior point off the axis): every point `y` at distance `≥ r` from the
+axis point `P` — in particular every point of the capsule's surface — is at least as far from `p` as the projection. -/
+theorem cap3_project_optimal_hollow (hs : LawfulSqrt sq) (s : Capsule3 K) (p y : V3 K) (h : CapOk3 s) :
+    letI := fieldNum K sq
+    s.Mem p →
+    ((mkRat 1 4503599627370496 : ℚ) : K) * ((mkRat 1 4503599627370496 : ℚ) : K) < capAxisSq sq s p →
+    s.r * s.r ≤ dsq3 y ((⟨s.a, s.b⟩ : Segment3 K).projectLoc p).1.pt →
+    dsq3 p (s.project p false).pt ≤ dsq3 p y := by
+  letI := fieldNum K sq
+  intro hm hN hy
+  have he := eps_pos (K := K)
+  have hr0 : 0 ≤ s.r := le_trans he.le h
+  have hnn : 0 ≤ capAxisSq sq s p := le_trans (mul_self_nonneg _) hN.le
+  have h2 := hs.sq_mul _ hnn
+  have h0 := hs.nonneg _ hnn
+  have hle := (cap3_mem_iff sq s p).mp hm
+  have hDr : sq (capAxisSq sq s p) ≤ s.r := by
+    apply le_of_mul_self_le hr0; rw [h2]; exact hle
+  rcases (cap3_cases sq hs s p false h).2 with ⟨_, _, hsol⟩ | ⟨d, hd, e, hdir, _⟩
+  · exact absurd hsol (by simp)
+  · have hdir' := hdir hN
+    rw [e]
+    have hyn : 0 ≤ dsq3 y ((⟨s.a, s.b⟩ : Segment3 K).projectLoc p).1.pt := le_trans (mul_self_nonneg _) hy
+    have g2 := hs.sq_mul _ hyn
+    have g0 := hs.nonneg _ hyn
+    have hηr : s.r ≤ sq (dsq3 y ((⟨s.a, s.b⟩ : Segment3 K).projectLoc p).1.pt) := by
+      apply le_of_mul_self_le g0; rw [g2]; exact hy
+    generalize sq (capAxisSq sq s p) = D at *
+    generalize ((⟨s.a, s.b⟩ : Segment3 K).projectLoc p).1.pt = P at *
+    have hpx : p.x = P.x + d.x * D := by have := congrArg V3.x hdir'; simp only [V3.sub, V3.smul] at this; linarith
+    have hpy : p.y = P.y + d.y * D := by have := congrArg V3.y hdir'; simp only [V3.sub, V3.smul] at this; linarith
+    have hpz : p.z = P.z + d.z * D := by have := congrArg V3.z hdir'; simp only [V3.sub, V3.smul] at this; linarith
+    have hdy := dot_le3 d.x d.y d.z (y.x - P.x) (y.y - P.y) (y.z - P.z) 1 (sq (dsq3 y P))
+      (by simpa [V3.normSq, V3.dot] using le_of_eq hd) (by rw [g2]; simp only [dsq3]; exact le_refl _) zero_le_one g0
+    generalize sq (dsq3 y P) = η at *
+    simp only [V3.add, V3.smul, V3.normSq, V3.dot, dsq3] at hd g2 ⊢
+    rw [hpx, hpy, hpz]
+    have e1 : (P.x + d.x * D - (P.x + d.x * s.r)) * (P.x + d.x * D - (P.x + d.x * s.r))
+        + (P.y + d.y * D - (P.y + d.y * s.r)) * (P.y + d.y * D - (P.y + d.y * s.r))
+        + (P.z + d.z * D - (P.z + d.z * s.r)) * (P.z + d.z * D - (P.z + d.z * s.r)) = (s.r - D) * (s.r - D) := by
+      linear_combination ((s.r - D) * (s.r - D)) * hd
+    have e2 : (P.x + d.x * D - y.x) * (P.x + d.x * D - y.x) + (P.y + d.y * D - y.y) * (P.y + d.y * D - y.y)
+        + (P.z + d.z * D - y.z) * (P.z + d.z * D - y.z)
+        = D * D - 2 * D * (d.x * (y.x - P.x) + d.y * (y.y - P.y) + d.z * (y.z - P.z)) + η * η := by
+      linear_combination (D * D) * hd - g2
+    rw [e1, e2]
+    nlinarith [mul_nonneg h0 (sub_nonneg.2 (by linarith : d.x * (y.x - P.x) + d.y * (y.y - P.y) + d.z * (y.z - P.z) ≤ η)),
+      mul_nonneg (sub_nonneg.2 hηr) (by linarith : 0 ≤ η + s.r - 2 * D)]
 
 end C05
